@@ -27,7 +27,11 @@ const FAILING: [&str; 14] = [
     "xs | [0] | abs(@) | nofn(@)",
 ];
 
-const PLAIN: [&str; 26] = [
+const PLAIN: [&str; 30] = [
+    "{a: a, b: xs, a: length(@), c: recs[0]}",
+    "recs[*].{id: id, k: k, id: to_string(id), z: k}",
+    "{n: a, n: abs(a), m: ceil(a)}",
+    "{x: xs[0], y: xs[1], x: xs[2], y: xs[0], w: a}",
     "sum(`[1, 2]`)",
     "sum(`[5, 5]`)",
     "abs(`-1`)",
@@ -71,7 +75,7 @@ pub fn pool(seed: u64) -> (Vec<String>, Vec<Value>) {
         docs.push(gen_doc(&mut rng, 4));
     }
     let mut exprs: Vec<String> = FAILING.iter().chain(PLAIN.iter()).map(|s| s.to_string()).collect();
-    while exprs.len() < 54 {
+    while exprs.len() < 58 {
         let d = docs[rng.below(docs.len())].clone();
         let tree = TreeGen { rng: &mut rng, cfg: GenCfg { calls: true, depth: 2 } }.pipeline(&d, 2, 4);
         if let Ok(t) = Printer::new(&mut rng).emit(&tree) {
@@ -155,7 +159,14 @@ struct Handle<'a> {
 /// for sibling expressions (same shape, different literals / documents) search
 /// E1, then `gap` unrelated cheap searches, then E2, for every gap in a range.
 fn gap_sweep(rep: &mut Report, args: &Args) {
-    let siblings: [(&str, &str); 8] = [
+    let siblings: [(&str, &str); 14] = [
+        // same length, same shape, same offsets, different member inside the expression reference
+        ("sort_by(recs, &k)[*].id", "sort_by(recs, &j)[*].id"),
+        ("max_by(recs, &k).id", "max_by(recs, &j).id"),
+        ("min_by(recs, &k).id", "min_by(recs, &j).id"),
+        ("map(&k, recs)", "map(&j, recs)"),
+        ("sort_by(recs, &j)[0].k", "sort_by(recs, &k)[0].j"),
+        ("recs[?k > `3`].id", "recs[?j > `3`].id"),
         ("sum(`[1, 2]`)", "sum(`[5, 5]`)"),
         ("abs(`-1`)", "abs(`-7`)"),
         ("abs(`-1`)", "abs(`\"x\"`)"),
@@ -165,7 +176,7 @@ fn gap_sweep(rep: &mut Report, args: &Args) {
         ("xs[?@ > `1`]", "xs[?@ > `2`]"),
         ("sort_by(recs, &k)[-1].id", "sort_by(recs, &k)[0].id"),
     ];
-    let doc = json!({"a": {"b": 1, "c": 2}, "xs": [1, 2, 3], "recs": [{"id": "ann", "k": 3}, {"id": "bob", "k": 7}, {"id": "cid", "k": 7}]});
+    let doc = json!({"a": {"b": 1, "c": 2}, "xs": [1, 2, 3], "recs": [{"id": "ann", "k": 3, "j": 9}, {"id": "bob", "k": 7, "j": 1}, {"id": "cid", "k": 7, "j": 5}]});
     let input = rcvar_of(&doc);
     let filler = jmespath::compile("@").unwrap();
     let max_gap: u64 = args.kv.get("max-gap").and_then(|v| v.parse().ok()).unwrap_or(600);
@@ -173,13 +184,24 @@ fn gap_sweep(rep: &mut Report, args: &Args) {
     while gap <= max_gap {
         for (e1, e2) in siblings.iter() {
             // single-shot truth of E2 first (fresh compile, nothing before it in this pair's window)
-            let want = fingerprint(&jmespath::compile(e2).and_then(|x| x.search(&input)));
-            let _ = jmespath::compile(e1).and_then(|x| x.search(&input));
+            // every text lives in its own heap allocation that is freed right after use, as a caller's
+            // would be: state keyed by where a text happened to be stored meets a new text at the same place
+            let want = {
+                let t = e2.to_string();
+                fingerprint(&jmespath::compile(&t).and_then(|x| x.search(&input)))
+            };
+            {
+                let t = e1.to_string();
+                let _ = jmespath::compile(&t).and_then(|x| x.search(&input));
+            }
             for _ in 0..gap {
                 let _ = filler.search(&input);
             }
             rep.evaluations += 1;
-            let got = fingerprint(&jmespath::compile(e2).and_then(|x| x.search(&input)));
+            let got = {
+                let t = e2.to_string();
+                fingerprint(&jmespath::compile(&t).and_then(|x| x.search(&input)))
+            };
             if got == want {
                 rep.count("gap_sweep_ok");
             } else {
